@@ -30,7 +30,7 @@ CONF = {
     "C01": dict(kinds={"accept", "consumed", "fn"} | COMMON_DEATH,
                 quick=[("core", {}, 1.0)], thorough=[("core", {}, 1.0), ("errors", {}, 0.5), ("fields", {}, 0.5), ("unicode", {"unicode_heavy": True}, 0.3)]),
     "C02": dict(kinds={"tree", "substring"},
-                quick=[("fields", {}, 1.0)], thorough=[("fields", {}, 1.0), ("core", {}, 1.0), ("include", {}, 0.3)]),
+                quick=[("fields", {}, 0.7), ("dupfields", {}, 0.7)], thorough=[("fields", {}, 1.0), ("dupfields", {}, 1.0), ("core", {}, 1.0), ("include", {}, 0.3)]),
     "C04": dict(kinds={"panic", "crash", "boundary", "substring"},
                 quick=[("unicode", {"unicode_heavy": True}, 1.0)], thorough=[("unicode", {"unicode_heavy": True}, 1.0), ("userfn", {"unicode_heavy": True}, 0.3)]),
     "C05": dict(kinds={"accept", "consumed", "tree", "variant"} | COMMON_DEATH,
@@ -170,3 +170,51 @@ def check_C03(tier, seed):
             "(exact field types, exhaustive destructuring and matches, PegPosition, PegParserAdvanced impls) under #![forbid(unsafe_code)]. "
             "Non-trivial: >=1 field of arity != One or an enum/box/alias; distinct = distinct (type-shape signature, derive variant).")
     return out.finish(evaluations, len(shapes), rule, floor=10 if tier == "quick" else 50)
+
+
+# ------------------------------------------------------------------------------------------------ C06
+def check_C06(tier, seed):
+    import families
+    out, ev, nt, floor = pipeline_check("C06", tier, seed)
+    agg = out.coverage.get("observed", {})
+    pairs = agg.get("memo_pairs", 0)
+    reentered = agg.get("memo_pairs_reentered", 0)
+    # ---- hand-built fully memoized families: per-pair bound (already in findings), aggregate bound, linear growth
+    s = pipeline.run_profile("memofam", seed, tier, opts={}, scale=1.0)
+    fam_agg = s["counters"]
+    pairs += fam_agg.get("memo_pairs", 0)
+    reentered += fam_agg.get("memo_pairs_reentered", 0)
+    for f in s["findings"]:
+        if f["kind"] in ("memo_bound", "crash", "fuel", "accept", "tree"):
+            out.violation(finding_signature("memofam", f), "%s: %s (rule %s, input %r)" % (f["kind"], f["msg"], f["rule"], f["input"]),
+                          {"profile": "memofam", "opts": {}, "grammar_text": f["grammar_text"], "rule": f["rule"], "input": f["input"],
+                           "expected": f["expected"], "observed": f["observed"], "kind": f["kind"], "uid": f["uid"], "run_key": s["key"]})
+    agg_checked = 0
+    growth_checked = 0
+    for u in s.get("case_facts", []):
+        nmemo = u["nrules"] - 1  # every rule but the root is memoized in these families
+        _, _, growth = families.fam(u["base"])
+        byinput = {c["input"]: c for c in u["cases"]}
+        for c in u["cases"]:
+            evals = c["facts"].get("memo_body_evals")
+            if evals is None:
+                continue
+            agg_checked += 1
+            bound = nmemo * (c["len"] + 1)
+            if evals > bound:
+                out.violation("memo_aggregate:family%d" % (u["base"] % 5), "fully memoized grammar performed %d body evaluations on a %d-byte input (bound: %d rules x (len+1) = %d)" % (evals, c["len"], nmemo, bound),
+                              {"grammar_text": u["text"], "rule": c["rule"], "input": c["input"], "observed": evals, "expected": "<= %d" % bound})
+        # growth of the logical step count over the input family: at most linear (ratio against doubling)
+        pts = [(n, byinput[i]["facts"].get("steps_impl")) for (i, n) in growth if i in byinput and byinput[i]["facts"].get("steps_impl")]
+        for (n1, s1), (n2, s2) in zip(pts, pts[1:]):
+            growth_checked += 1
+            if s2 > (n2 / n1) * s1 * 1.6 + 200:
+                out.violation("memo_growth:family%d" % (u["base"] % 5), "step count grows faster than linearly on failing inputs of a fully memoized grammar: n=%d -> %d steps, n=%d -> %d steps" % (n1, s1, n2, s2),
+                              {"grammar_text": u["text"], "points": pts})
+    out.coverage["families"] = {"grammars": len(s.get("case_facts", [])), "aggregate_bounds_checked": agg_checked, "growth_ratios_checked": growth_checked,
+                                "cases": s["stats"]["cases"]}
+    out.coverage["memo_pairs_observed"] = pairs
+    for smp in s["samples"][:2]:
+        out.samples.append(smp)
+    rule = RULES["C06"] + " evaluations = (memoized rule, entry offset) pairs observed; plus 5 hand-built fully memoized families (nested brackets with 3-4 alternatives sharing a prefix, right-recursive expressions, lookahead-then-match, failing @check, lists) with failing inputs up to depth 24: aggregate bound rules x (len+1) and at-most-linear growth of the logical step count."
+    return out.finish(pairs, reentered, rule, floor=floor)
